@@ -11,7 +11,7 @@ PROP = {
             "'Adaptive-Simpson' dispatcher; nested: separable integrands with three different factors on three disjoint limit pairs ([0,3], [10,13], [20,23] in random axis order), "
             "every orientation, six methods in 2D and the four spectrally convergent ones in 3D; spherical overload on random (r, cos theta, phi) sub-ranges and the full shell with a "
             "direction-dependent integrand; unknown method names in isolated children; the recorded witnesses of finding D16",
-    "floors": {"quick": {"cases": 9000, "distinct_nontrivial": 4000, "ticks": {"Simpson.panel": 100000},
+    "floors": {"quick": {"cases": 16000, "distinct_nontrivial": 11000, "ticks": {"Simpson.panel": 100000},
                          "clauses": {"Gauss-Legendre-within-1e-9": 1000, "Gauss-Kronrod-within-1e-9": 1000, "Tanh-Sinh-within-1e-9": 1000, "Gauss-Legendre_2-within-1e-9": 1000,
                                      "Adaptive-Simpson-within-1e-9-on-estimator-regular-integrands": 2500, "Trapezoidal-within-1e-6-where-the-a-priori-bound-applies": 500,
                                      "integrate-2d-equals-product-of-1d-integrals": 200, "integrate-3d-equals-product-of-1d-integrals": 200,
